@@ -259,7 +259,10 @@ class C20(Prop):
     def fixed_contents(self):
         return [b'', bytes(range(256)), b'a\r\nb\nc\rd\r\r\n\n', PLACEHOLDER, PLACEHOLDER + b'\n', b' ' + PLACEHOLDER,
                 PLACEHOLDER[:-1], b'=', b'====', b'\x00', b'\xff' * 5, b'YWJvdmUgaW50ZXJjZXB0aW9uIGxpbWl0',
-                bytes(range(255, -1, -1)) * 3, b'\n', b'\r\n' * 40]
+                bytes(range(255, -1, -1)) * 3, b'\n', b'\r\n' * 40,
+                # files that are themselves encoded / compressed payloads (a blob downloaded from upstream): bytes are bytes
+                __import__('zlib').compress(b'payload ' * 40), __import__('gzip').compress(b'payload ' * 40, mtime=0),
+                __import__('base64').b64encode(b'payload ' * 10), b'{"py/b64": "YQ=="}']
 
     def mk_trip(self, rng, content, limit, cassette=None, out=None, shape_in=None, shape_rep=None, shape_out=None,
                 static=None):
